@@ -58,7 +58,31 @@ def cdict(pairs):
 
 
 def cdict_i(pairs, K):
-    return clist([f"({K(k)}, {cval(v)})" for k, v in pairs])
+    return clist([K.pair(k, v) for k, v in pairs])
+
+
+class Interner:
+    """per-file tables: key strings (referred to by index) and (key, value) pairs (referred to by name); repeated
+    entries of the observed dictionaries are then parsed once per file instead of once per case"""
+
+    def __init__(self):
+        self.keys, self.pairs = {}, {}
+
+    def __call__(self, key):
+        if key not in self.keys:
+            self.keys[key] = len(self.keys)
+        return f"{self.keys[key]}%nat"
+
+    def pair(self, k, v):
+        t = f"({self(k)}, {cval(v)})"
+        if t not in self.pairs:
+            self.pairs[t] = f"p{len(self.pairs)}"
+        return self.pairs[t]
+
+    def defs(self):
+        out = ["Definition ks : list string := " + clist([cstr(k) for k in self.keys]) + "."]
+        out += [f"Definition {n} : nat * value := {t}." for t, n in self.pairs.items()]
+        return "\n".join(out)
 
 
 def float_parses(s):
@@ -353,15 +377,10 @@ def eval_cases(ctx, name, terms_by_row, rowdefs):
 
     def one(args):
         ci, (idxs, rids) = args
-        tab = {}
-
-        def K(key):
-            if key not in tab:
-                tab[key] = len(tab)
-            return f"{tab[key]}%nat"
+        K = Interner()
         built = [terms_by_row[i][1](K) if callable(terms_by_row[i][1]) else terms_by_row[i][1] for i in idxs]
         defs = "\n".join(rowdef(r, rowdefs[r]) for r in sorted(rids))
-        defs += "\nDefinition ks : list string := " + clist([cstr(k) for k in tab]) + "."
+        defs += "\n" + K.defs()
         codes = ctx.coq_codes(f"{name}_{ci}", IMPORTS, built, per_file=10 ** 6, defs=defs, timeout=1500)
         return list(zip(idxs, codes))
     out = [None] * len(terms_by_row)
